@@ -122,6 +122,8 @@ class SimTransport(object):
         if failing:
             self.log.append(("handler", u, "fail"))
             self._fire("handler_fail_first")
+            if p.get("silent"):
+                raise EXC[p.get("exc", "OSError")]()           # an exception whose str() is empty
             raise EXC[p.get("exc", "OSError")]("dsim: handler fault for %r" % (u,))
         return self._serve("handler", u)
 
